@@ -36,7 +36,7 @@ type toolCase struct {
 	Wrote [][]string `json:"wrote"`
 }
 
-var toolFiles = []string{"932100", "932110", "932120-chain1"}
+var toolFiles = []string{"932100-chain1", "932100", "932110"}
 
 // the pool of assembly programs: text as written by a developer (raw) and its body in canonical layout
 var toolSources = map[string][2]string{
@@ -87,14 +87,17 @@ func (e *toolEnv) operand(f, stored string) (string, bool) {
 func (e *toolEnv) rulesText(t *toolTree) string {
 	var b strings.Builder
 	b.WriteString("# rules of the 932 family\n")
+	// rule 932100: its own regex (file 932100.ra) and, unless "nochain", one chained rule (file 932100-chain1.ra)
 	if op, ok := e.operand("932100", t.Stored["932100"]); ok {
-		fmt.Fprintf(&b, "SecRule ARGS \"@rx %s\" \\\n    \"id:932100,\\\n    block\"\n\n", op)
+		if t.Stored["932100-chain1"] == "nochain" {
+			fmt.Fprintf(&b, "SecRule ARGS \"@rx %s\" \\\n    \"id:932100,\\\n    block\"\n\n", op)
+		} else {
+			op1, _ := e.operand("932100-chain1", t.Stored["932100-chain1"])
+			fmt.Fprintf(&b, "SecRule ARGS \"@rx %s\" \\\n    \"id:932100,\\\n    chain\"\n    SecRule ARGS \"@rx %s\" \\\n        \"t:none\"\n\n", op, op1)
+		}
 	}
 	if op, ok := e.operand("932110", t.Stored["932110"]); ok {
-		fmt.Fprintf(&b, "SecRule ARGS \"@rx %s\" \\\n    \"id:932110,\\\n    block\"\n\n", op)
-	}
-	if op, ok := e.operand("932120-chain1", t.Stored["932120-chain1"]); ok {
-		fmt.Fprintf(&b, "SecRule ARGS \"@rx first\" \\\n    \"id:932120,\\\n    chain\"\n    SecRule ARGS \"@rx %s\" \\\n        \"t:none\"\n", op)
+		fmt.Fprintf(&b, "SecRule ARGS \"@rx %s\" \\\n    \"id:932110,\\\n    block\"\n", op)
 	}
 	return b.String()
 }
@@ -257,6 +260,11 @@ func checkToolchain(c *Ctx, prop string) error {
 	}
 	var cli int64
 	parallel(len(cases), 16, func(i int) { toolReplay(c, env, fmt.Sprintf("tl%d", i), &cases[i], &cli) })
+	if prop == "C08" {
+		if err := toolSameProcess(c, env, cal); err != nil {
+			return err
+		}
+	}
 	perCmd := map[string]int{}
 	for i := range cases {
 		tc := &cases[i]
@@ -283,6 +291,9 @@ func checkToolchain(c *Ctx, prop string) error {
 			c.markNontrivial(hashOf(tc))
 		}
 	}
+	if prop == "C16" {
+		c.Level = "fault_enumeration"
+	}
 	c.countEval(len(cases))
 	c.Cov["states"] = st.Distinct
 	c.Cov["transitions"] = st.Generated
@@ -291,7 +302,7 @@ func checkToolchain(c *Ctx, prop string) error {
 	c.Cov["per_command"] = perCmd
 	c.Cov["cli_executions"] = cli
 	c.Cov["exhaustive"] = false
-	c.Cov["rule"] = "TLC explores every transition (tree before, command, tree after, exit, components written) of Toolchain.tla from 144 initial trees (12 assignments of 17 program shapes incl. one per fault class of C16 at top level / in a block / in an include to 3 assembly files - shared stash names, definitions, flags/prefix only in one file, include-only, a failing file in the middle, a chain offset - x formatted or not x rule present or missing x one / no / two rules files) closed under one environment edit, for 14 commands incl. every --all variant and github mode, and checks FrameOK, LoudOK, RoundTripOK and AllIsSingles on each; a stratified sample of the transitions is executed on a concrete tree with decoy files (other extensions, look-alike names, nested directories, a sibling directory outside the root): exit status, abstract tree after (read back from the bytes) and the set of changed paths must be what the model says. " +
+	c.Cov["rule"] = "TLC explores every transition (tree before, command, tree after, exit, components written) of Toolchain.tla from 216 initial trees (12 assignments of 17 program shapes incl. one per fault class of C16 at top level / in a block / in an include to 3 assembly files - shared stash names, definitions, flags/prefix only in one file, include-only, a failing file in the middle, a chain offset - x formatted or not x rule present or missing x one / no / two rules files) closed under one environment edit, for 14 commands incl. every --all variant and github mode, and checks FrameOK, LoudOK, RoundTripOK and AllIsSingles on each; a stratified sample of the transitions is executed on a concrete tree with decoy files (other extensions, look-alike names, nested directories, a sibling directory outside the root): exit status, abstract tree after (read back from the bytes) and the set of changed paths must be what the model says. " +
 		map[string]string{"C08": "C08 sample: --all commands and the single commands they must equal; non-trivial = an --all command on a tree with >= 2 assembly files.",
 			"C15": "C15 sample: all commands; every transition is non-trivial (the whole tree incl. decoys is snapshotted).",
 			"C16": "C16 sample: transitions the model ends with exit 1 and every generate; non-trivial = the model says the command must fail."}[prop]
@@ -374,4 +385,76 @@ func toolReplay(c *Ctx, env *toolEnv, name string, tc *toolCase, cli *int64) {
 			return
 		}
 	}
+}
+
+// toolSameProcess is Direction B for C08: many compilations in ONE process (what --all does),
+// in several orders, failing programs in between.  Every result must equal the result of the
+// same program in a fresh process, and the recorded execution must be a behaviour of AsmShape
+// (in particular: whatever a failed run left on the package-level stack, the next run starts
+// from a single root frame).
+func toolSameProcess(c *Ctx, env *toolEnv, root string) error {
+	pool, err := c.newInprocPool()
+	if err != nil {
+		return err
+	}
+	trace := filepath.Join(c.Scratch, "sameproc.ndjson")
+	w := &inprocWorker{bin: pool.bin, env: []string{"CRS_VERIF_TRACE=" + trace}}
+	defer w.stop()
+	names := make([]string, 0, len(toolSources))
+	for s := range toolSources {
+		names = append(names, s)
+	}
+	sort.Strings(names)
+	rounds := 6
+	if c.Tier == "thorough" {
+		rounds = 40
+	}
+	runs := 0
+	for r := 0; r < rounds; r++ {
+		// a different order every round (seeded)
+		order := append([]string{}, names...)
+		sort.Slice(order, func(i, j int) bool {
+			return caseHash([]string{order[i], fmt.Sprint(r)}, c.Seed) < caseHash([]string{order[j], fmt.Sprint(r)}, c.Seed)
+		})
+		for _, s := range order {
+			rep, err := w.run(root, toolRaw(s))
+			if err != nil {
+				return err
+			}
+			runs++
+			if rep.Died {
+				continue // the program ends the process (fatal log): the next request starts a new one
+			}
+			want, compiles := env.g[s]
+			got := rep.Out
+			if rep.Err != "" || rep.Panic != "" {
+				got = ""
+			}
+			if compiles && got != want {
+				c.violation("toolchain", map[string]any{"why": "a program compiled after others in the same process gives a different result than in a fresh process",
+					"program": toolRaw(s), "fresh_process": want, "same_process": got, "error": rep.Err + rep.Panic, "order": order})
+				return nil
+			}
+			if !compiles && rep.Err == "" && rep.Panic == "" {
+				c.violation("toolchain", map[string]any{"why": "a program that fails in a fresh process compiles after others in the same process",
+					"program": toolRaw(s), "same_process": got, "order": order})
+				return nil
+			}
+		}
+	}
+	w.stop()
+	tr, err := c.validateAsmTraces([]string{trace}, []string{"same-process driver"})
+	os.Remove(trace)
+	if err != nil {
+		return err
+	}
+	c.Cov["same_process_runs"] = runs
+	c.Cov["recorded_traces_validated"] = tr.Processes
+	c.Cov["recorded_events_validated"] = tr.Consumed
+	c.Cov["runs_entered_with_leftover_stack"] = tr.DirtyEnter
+	if !tr.Accepted {
+		c.violation("trace", map[string]any{"why": "the recorded execution of several compilations in one process is not a behaviour of AsmShape",
+			"rejected_event": tr.RejectedEv, "event_index": tr.Consumed, "spec_state": tr.State})
+	}
+	return nil
 }
